@@ -11,9 +11,10 @@ Definition style_code (st : style) : N :=
    num_t: token.ToNumber(rtrim s) != nil; num_s: ToNumber(s) != nil; isnum: token.isNumber(s);
    ts: token.isTimestamp(s); lit_ok: literal.Unquote(literal...Quote(s)) == s.
    Result: style, emitted text, value read from [text] under the YAML semantics,
-   known reader deviation that applies (0 none, 1 dots, 2 merge, 3 tab, 4 cue literal). *)
+   known reader deviation that applies (0 none, 1 dots, 2 merge, 3 tab, 4 cue literal,
+   5 blank literal followed by a node). *)
 Definition c11_probe (np : list N) (num_t num_s isnum ts lit_ok : bool)
-           (is_key multi col0 root : bool) (p n : nat) (suffix s text : str)
+           (is_key multi col0 root followed : bool) (p n : nat) (suffix s text : str)
   : N * str * option str * N :=
   let is_print := fun c => negb (mem_chr c np) in
   let tok_number := fun t => if str_eqb t s then num_s else num_t in
@@ -22,8 +23,13 @@ Definition c11_probe (np : list N) (num_t num_s isnum ts lit_ok : bool)
   let lit := match st with Literal => true | _ => false end in
   let q : N := if quirk_dots col0 plain s then 1
            else if quirk_merge is_key plain s then 2
-           else if quirk_tab lit s then 3
-           else if quirk_cuelit is_key lit_ok s then 4 else 0 in
+           else if lit && negb (match goccy_literal text, parse_literal p root text with
+                               | Some a, Some b => str_eqb a b
+                               | None, None => true
+                               | _, _ => false
+                               end) then 3
+           else if quirk_cuelit is_key lit_ok s then 4
+           else if quirk_blank_followed followed lit s then 5 else 0 in
   (style_code st,
    emit is_print st n s,
    read_any tok_number p root col0 suffix text, q).
